@@ -52,7 +52,7 @@ CHECKS = {
          "For every trial NOT(both complete AND views differ); violating version rewrites are minimised so that the finding key names the smallest tampering.",
          "which range combinations complete is not judged", "3/C04", True),
  "C05": ("exploration", "runtime monitoring in real time: full stack (real Server/Client, GBN, NoiseGrpcConn) over an in-memory relay with fault injection; position-by-position byte-stream oracle, ciphertext-only scan of everything the relay saw, re-run rule for progress",
-         "Sessions run in parallel with PRNG write/read-buffer sizes and relay fault profiles; safety oracles are time-independent; a progress miss must reproduce alone with a 300 s allowance before it counts.",
+         "Sessions run in parallel with PRNG write/read-buffer sizes and relay fault profiles; a quarter of the cases are sessions of a real grpc.Server / grpc.ClientConn pair over the same stack (reply-matches-request oracle); safety oracles are time-independent; a progress miss must reproduce alone with a 300 s allowance before it counts.",
          "relay is a model of aperture's hashmail server; real-time progress verdicts follow DESIGN 1.3", "3/C05", True),
  "C08": ("exploration", "runtime monitoring: (key, nonce) registry read through the hook before every write, lock-step rotation comparison, ciphertext distinctness and plaintext-marker scan over thousands of records with PRNG interleaving of the two directions",
          "Up to 6000 records per direction (12 rotations) with bursts that cross rotation boundaries in both directions while records are in flight.",
